@@ -34,6 +34,11 @@ type facts struct {
 	bmCache bool // uid is one of the board's cached moderator uids
 	friend  bool // listed in the board's friend file
 	named   bool // user id appears in the board's moderator string
+
+	// s/m-ops (accounts.go): how the oracle arrived at the facts above
+	who       string
+	expectErr bool
+	mods      []int32
 }
 
 func bit(w uint32, i uint) bool { return (w>>i)&1 == 1 }
